@@ -2125,10 +2125,24 @@ int commands::executeNinjaBuildCommand(std::vector<std::string> args) {
     class NinjaBuildCommandRule: public core::Rule {
       BuildContext& context;
       ninja::Command* command;
+
+      /// The declared inputs of the statement, by class. The engine re-runs a
+      /// rule whose signature changed, so the dependencies recorded for a
+      /// statement do not outlive an edit of its input lists (the command
+      /// string does not name implicit or order-only inputs).
+      static basic::CommandSignature inputsSignature(ninja::Command* command) {
+        basic::CommandSignature sig("inputs");
+        sig.combine(command->getNumExplicitInputs());
+        sig.combine(command->getNumImplicitInputs());
+        for (const auto* input: command->getInputs())
+          sig.combine(input->getCanonicalPath());
+        return sig;
+      }
     public:
       NinjaBuildCommandRule(const core::KeyType& key, BuildContext& context,
                             ninja::Command* command)
-        : core::Rule(key), context(context), command(command) {}
+        : core::Rule(key, inputsSignature(command)), context(context),
+          command(command) {}
 
       core::Task* createTask(core::BuildEngine&) override {
         return buildCommand(context, command);
